@@ -464,6 +464,16 @@ Section PathModel.
     end.
 
   Definition accumulated (ops : list pop) : list cond := accumulated_from [] ops.
+
+  (* what the solvers handed to Path(...) already held: the first one, then one per extension *)
+  Definition bases (s0 : list cond) (ops : list pop) : list cond :=
+    (s0 ++ flat_map (fun o => match o with OExtend s1 => s1 | _ => [] end) ops)%list.
+
+  Definition last_base (s0 : list cond) (ops : list pop) : list cond :=
+    fold_left (fun b o => match o with OExtend s1 => s1 | _ => b end) ops s0.
+
+  Definition no_slice (ops : list pop) : bool :=
+    forallb (fun o => match o with OSlice _ => false | _ => true end) ops.
 End PathModel.
 
 Arguments mkPath {cond}.
